@@ -115,6 +115,7 @@ MODELS_C02 = [(r'Registry::register_type', m_register_type)]
 
 def body_into_portable(cap, kind=None, wrong=False, caps=None):
     def body(M):
+        M.aux['tid_sort'] = TIDS
         mb = MetaBuilder(cap, caps=dict({'docs': 1}, **(caps or {})))
         ty = mb.ty(kind)
         for c in mb.cons: M.add(c)
